@@ -302,16 +302,18 @@ func init() {
 			f, a := fmtArgs(n.S[0], n.A, hid)
 			return errors.WithMessagef(k[0], f, a...)
 		}})
-	def(WNewfW, KindInfo{Slots: "SS", Name: "errors.Newf(%w)", Arity: Wrap, Groups: GLib | GStack, NInts: []int{3}, Weight: 6,
-		build: func(n *Node, k, _ []error) error {
-			// position of %w: 0 = end ("lit: %w"), 1 = middle, 2 = start
+	def(WNewfW, KindInfo{Slots: "SS", Name: "errors.Newf(%w)", Arity: Wrap, Groups: GLib | GStack | GFmtArgs, NInts: []int{3}, Args: true, Weight: 6,
+		build: func(n *Node, k, hid []error) error {
+			// position of %w: 0 = end ("lit args: %w"), 1 = middle, 2 = start;
+			// further printf arguments (possibly errors) follow the literal
+			f, a := fmtArgs(n.S[0], n.A, hid)
 			switch n.N[0] {
 			case 0:
-				return errors.Newf(escFmt(n.S[0].V)+" "+escFmt(n.S[1].V)+": %w", k[0])
+				return errors.Newf(f+" "+escFmt(n.S[1].V)+": %w", append(a, k[0])...)
 			case 1:
-				return errors.Newf(escFmt(n.S[0].V)+" %w "+escFmt(n.S[1].V), k[0])
+				return errors.Newf(f+" %w "+escFmt(n.S[1].V), append(a, k[0])...)
 			default:
-				return errors.Newf("%w "+escFmt(n.S[0].V)+" "+escFmt(n.S[1].V), k[0])
+				return errors.Newf("%w "+escFmt(n.S[1].V)+" "+f, append([]interface{}{k[0]}, a...)...)
 			}
 		}})
 	def(WStack, KindInfo{Name: "errors.WithStack", Arity: Wrap, Groups: GLib | GStack,
